@@ -197,8 +197,9 @@ def verify (S : Scheme) (r : Record) : Res Bool :=
 /-- `compare_content` -/
 def compareContent (a b : Record) : Bool := a.rlpContent = b.rlpContent
 
-/-- `PartialEq` -/
-def eqv (a b : Record) : Bool := a.seq = b.seq && a.nodeId = b.nodeId && a.sig = b.sig
+/-- `PartialEq`: sequence number, node id, signature and the key/value pairs -/
+def eqv (a b : Record) : Bool :=
+  a.seq = b.seq && a.nodeId = b.nodeId && a.sig = b.sig && a.content = b.content
 
 /-- what `Hash` feeds to the hasher -/
 def hashFeed (r : Record) : Nat × Bytes × Bytes := (r.seq, r.nodeId, r.sig)
